@@ -188,7 +188,10 @@ def declared_op(raw: dict, path: str, desc: dict) -> dict:
             sch, is_json = mt.get("schema", {}), media == "application/json"
         params.append({"loc": p["in"], "name": cps(p["name"]), "required": bool(p.get("required", False)), "schema": sch, "json": is_json})
     if form:
-        sch = {"type": "object", "properties": {p["name"]: {k: v for k, v in p.items() if k not in _PARAM_META} for p in form}}
+        # formData parameters are a parameter location: like an undeclared query parameter, an undeclared form field is
+        # undecided (DESIGN Appendix D) - expressed as an additionalProperties schema outside the oracle's fragment ("U")
+        sch = {"type": "object", "properties": {p["name"]: {k: v for k, v in p.items() if k not in _PARAM_META} for p in form},
+               "additionalProperties": {"x-verif-undeclared-form-field": True, "undecided": True}}
         if any(p.get("required") for p in form):
             sch["required"] = [p["name"] for p in form if p.get("required")]
         for m in consumes or ["multipart/form-data"]:
